@@ -433,3 +433,224 @@ Proof.
     right. split; [reflexivity|]. split; [reflexivity|]. right. left.
     split; [exact Eprs|]. split; [exact Enz|]. exists t, ents. auto 10.
 Qed.
+
+(* ------------------------------------------------------------------ *)
+(* the progress after a call *)
+
+(* the only ways the progress can have changed *)
+Definition pr_step (pr pr' : progress) : Prop :=
+  pr' = pr \/ (exists i, pr' = become_snapshot pr i) \/
+  (is_paused pr = false /\ exists last, update_state pr last = Ok pr').
+
+Lemma maybe_send_append_pr_step r to pr ae r' pr' b :
+  maybe_send_append r to pr ae = Ok (r', pr', b) -> pr_step pr pr'.
+Proof.
+  intros H. destruct (maybe_send_append_cases _ _ _ _ _ _ _ H) as [(_ & _ & ->)|(_ & Hp & C)];
+    [left; reflexivity|].
+  destruct C as [(_ & s & _ & _ & _ & ->)|[(_ & _ & t & ents & _ & _ & _ & _ & He & Hn)|
+                 (_ & _ & _ & t & ents & msgs' & _ & _ & _ & Hb & _)]].
+  - right; left; eauto.
+  - destruct ents as [|e0 et]; [left; apply He; reflexivity|].
+    right; right. split; [exact Hp|]. eexists. apply Hn. discriminate.
+  - destruct (try_batching_true _ _ _ _ _ _ _ Hb) as (pre & m0 & post & _ & _ & _ & _ & _ & He & Hn).
+    destruct ents as [|e0 et]; [left; apply He; reflexivity|].
+    right; right. split; [exact Hp|]. eexists. apply Hn. discriminate.
+Qed.
+
+Lemma PrInv_pr_step pr pr' : PrInv pr -> pr_step pr pr' -> PrInv pr'.
+Proof.
+  intros HI [->|[(i & ->)|(_ & last & H)]]; [exact HI|apply PrInv_become_snapshot; exact HI|].
+  eapply PrInv_update_state; eassumption.
+Qed.
+
+(* maybe_send_append keeps the window invariant, batching on or off *)
+Theorem maybe_send_append_PrInv r to pr ae r' pr' b :
+  PrInv pr -> maybe_send_append r to pr ae = Ok (r', pr', b) -> PrInv pr'.
+Proof. intros HI H. eapply PrInv_pr_step; [exact HI|]. eapply maybe_send_append_pr_step; exact H. Qed.
+
+(* ------------------------------------------------------------------ *)
+(* panics: under the window invariant none comes from the window *)
+
+Lemma bind_panic {A B} (a : Res A) (f : A -> Res B) s :
+  bind a f = Panic s -> a = Panic s \/ exists x, a = Ok x /\ f x = Panic s.
+Proof. destruct a as [x|s0]; cbn; intros H; [right; eauto|left; inversion H; reflexivity]. Qed.
+
+Lemma try_batching_no_panic r to msgs pr ents :
+  PrInv pr -> is_paused pr = false -> exists x, try_batching r to msgs pr ents = Ok x.
+Proof.
+  intros HI Hp. induction msgs as [|m rest IH]; cbn [try_batching]; [eauto|].
+  destruct ((m_type m =? MsgAppend) && (m_to m =? to)).
+  - destruct ents as [|e0 et]; [eauto|].
+    destruct (negb (is_continuous_ents m (e0 :: et))); [eauto|].
+    destruct (update_state_ok pr (e_index (List.last (m_entries m ++ e0 :: et) entry_default)) HI Hp)
+      as (pr' & E & _).
+    rewrite E. cbn [bind]. eauto.
+  - destruct IH as ([[rest' pr'] b] & E). rewrite E. cbn [bind]. eauto.
+Qed.
+
+(* every panic of maybe_send_append on a progress satisfying the window
+   invariant is a panic of one of its three reads (entries, term, snapshot), the
+   next_idx - 1 underflow, or one of the two snapshot fatals; in particular
+   Inflights.add never fires "cannot add into a full inflights" and
+   update_state never fires "unhandled state" *)
+Theorem maybe_send_append_panic_causes r to pr ae s :
+  PrInv pr -> maybe_send_append r to pr ae = Panic s ->
+  raft_snapshot r (pending_request_snapshot pr) to = Panic s
+  \/ s = site_snapshot_err \/ s = site_snapshot_empty
+  \/ log_entries (r_log r) (next_idx pr) (Some (r_max_msg_size r)) = Panic s
+  \/ s = site_next_idx_underflow
+  \/ RaftLog.term (r_log r) (next_idx pr - 1) = Panic s.
+Proof.
+  intros HI H. unfold maybe_send_append in H.
+  destruct (is_paused pr) eqn:Hp; [discriminate|].
+  assert (Hsnap :
+    (x <- prepare_send_snapshot r (msg_default <| m_to := to |>) pr to ;;
+     match x with
+     | None => Ok (r, pr, false)
+     | Some (m', pr'0) => r'0 <- send r m' ;; Ok (r'0, pr'0, true)
+     end) = Panic s ->
+    raft_snapshot r (pending_request_snapshot pr) to = Panic s
+    \/ s = site_snapshot_err \/ s = site_snapshot_empty).
+  { clear H. intros H. apply bind_panic in H. destruct H as [H|(x & Hx & H)].
+    - unfold prepare_send_snapshot in H. destruct (negb (recent_active pr)); [discriminate|].
+      apply bind_panic in H. destruct H as [H|(y & Hy & H)]; [left; exact H|].
+      destruct y as [sn|e].
+      + destruct (s_index sn =? 0); inversion H. right; right; reflexivity.
+      + destruct e; inversion H; right; left; reflexivity.
+    - destruct x as [[m1 pr1]|]; [|discriminate].
+      destruct (prepare_send_snapshot_some _ _ _ _ _ Hx) as (_ & sn & _ & _ & -> & _).
+      rewrite send_plain in H by reflexivity. discriminate. }
+  destruct (negb (pending_request_snapshot pr =? INVALID_INDEX)).
+  { destruct (Hsnap H) as [A|[A|A]]; auto. }
+  apply bind_panic in H. destruct H as [H|(ents & Hents & H)]; [auto 6|].
+  match type of H with (if ?c then _ else _) = _ => destruct c end; [discriminate|].
+  destruct (next_idx pr =? 0); [inversion H; auto 6|].
+  apply bind_panic in H. destruct H as [H|(t & Hterm & H)]; [auto 8|].
+  assert (Hfall : match t, ents with SOk _, SOk _ => False | _, _ => True end ->
+    raft_snapshot r (pending_request_snapshot pr) to = Panic s
+    \/ s = site_snapshot_err \/ s = site_snapshot_empty).
+  { intros Hsh. destruct t as [t|et]; destruct ents as [ents|ee]; try contradiction.
+    - destruct ee; try (apply Hsnap; exact H); discriminate.
+    - apply Hsnap; exact H.
+    - destruct ee; try (apply Hsnap; exact H); discriminate. }
+  destruct t as [t|et]; [destruct ents as [ents|ee]|];
+    try (destruct Hfall as [A|[A|A]]; [exact I|auto|auto|auto]).
+  apply bind_panic in H. destruct H as [H|(x & Hx & H)].
+  - destruct (r_batch_append r); [|discriminate].
+    destruct (try_batching_no_panic r to (r_msgs r) pr ents HI Hp) as (y & E). congruence.
+  - destruct x as [[msgs' pr1] batched]. destruct batched; [discriminate|].
+    apply bind_panic in H. destruct H as [H|(y & Hy & H)].
+    + unfold prepare_send_entries in H. destruct (next_idx pr =? 0); [inversion H; auto 6|].
+      destruct ents as [|e0 et]; [discriminate|].
+      apply bind_panic in H. destruct H as [H|(z & _ & H)]; [|discriminate].
+      destruct (update_state_ok pr (e_index (List.last (e0 :: et) entry_default)) HI Hp)
+        as (pr' & E & _). congruence.
+    + destruct y as [m' pr2].
+      destruct (prepare_send_entries_ok _ _ _ _ _ _ _ Hy) as (_ & -> & _).
+      rewrite send_plain in H by reflexivity. discriminate.
+Qed.
+
+(* ------------------------------------------------------------------ *)
+(* Theorem 2: the shape of what is sent, batching off *)
+
+Theorem maybe_send_append_shape r to pr ae r' pr' :
+  r_batch_append r = false ->
+  maybe_send_append r to pr ae = Ok (r', pr', true) ->
+  is_paused pr = false /\
+  exists m, r' = r <| r_msgs := r_msgs r ++ [m] |> /\
+    m_to m = to /\ m_from m = r_id r /\ m_term m = r_term r /\
+    ((* (a) a snapshot *)
+     (m = stamped r (snap_msg to (m_snapshot m)) /\ m_type m = MsgSnapshot /\
+      recent_active pr = true /\
+      raft_snapshot r (pending_request_snapshot pr) to = Ok (SOk (m_snapshot m)) /\
+      s_index (m_snapshot m) <> 0 /\
+      pr' = become_snapshot pr (s_index (m_snapshot m)) /\
+      pr_state pr' = Snapshot /\ pending_snapshot pr' = s_index (m_snapshot m))
+     \/
+     (* (b) an append anchored in the leader's own log *)
+     (m = stamped r (app_msg r to pr (m_log_term m) (m_entries m)) /\ m_type m = MsgAppend /\
+      pending_request_snapshot pr = 0 /\ next_idx pr <> 0 /\
+      m_index m = next_idx pr - 1 /\
+      RaftLog.term (r_log r) (next_idx pr - 1) = Ok (SOk (m_log_term m)) /\
+      log_entries (r_log r) (next_idx pr) (Some (r_max_msg_size r)) = Ok (SOk (m_entries m)) /\
+      m_commit m = committed (r_log r) /\
+      (ae = false -> m_entries m <> []) /\
+      (m_entries m = [] -> pr' = pr) /\
+      (m_entries m <> [] ->
+         (pr_state pr = Probe /\ pr' = pause pr) \/
+         (pr_state pr = Replicate /\
+          exists i, Inflights.add (ins pr) (last_idx (m_entries m)) = Ok i /\
+                    pr' = set_ins (optimistic_update pr (last_idx (m_entries m))) i)))).
+Proof.
+  intros Hb H.
+  destruct (maybe_send_append_cases _ _ _ _ _ _ _ H) as [(C & _)|(_ & Hp & C)]; [discriminate|].
+  split; [exact Hp|].
+  destruct C as [(Hra & s & Hs & Hnz & -> & ->)|[(Hprs & Hnx & t & ents & Ht & He & Hae & -> & H0 & H1)|
+                 (Hb' & _)]]; [| |congruence].
+  - eexists. split; [reflexivity|]. split; [reflexivity|]. split; [reflexivity|].
+    split; [reflexivity|]. left. cbn. auto 10.
+  - eexists. split; [reflexivity|]. split; [reflexivity|]. split; [reflexivity|].
+    split; [reflexivity|]. right.
+    change (m_entries (stamped r (app_msg r to pr t ents))) with ents.
+    change (m_log_term (stamped r (app_msg r to pr t ents))) with t.
+    split; [reflexivity|]. split; [reflexivity|]. split; [exact Hprs|]. split; [exact Hnx|].
+    split; [reflexivity|]. split; [exact Ht|]. split; [exact He|]. split; [reflexivity|].
+    split; [exact Hae|]. split; [exact H0|]. intros Hne. specialize (H1 Hne).
+    destruct (not_paused_cases pr Hp) as [[Hs _]|[Hs _]].
+    + left. split; [exact Hs|]. rewrite update_state_probe in H1 by exact Hs. congruence.
+    + right. split; [exact Hs|]. apply update_state_replicate; assumption.
+Qed.
+
+(* at most one entry-carrying append while probing: after it the progress is
+   paused, and a paused probe sends nothing (on any node state) until resumed *)
+Theorem probe_one_outstanding r to pr ae r' pr' :
+  maybe_send_append r to pr ae = Ok (r', pr', true) -> pr_state pr = Probe ->
+  (* nothing else can have happened to the progress *)
+  (pr' = pr \/ (exists i, pr' = become_snapshot pr i) \/ pr' = pause pr) /\
+  (* an append carrying entries pauses *)
+  (forall m, r_msgs r' = r_msgs r ++ [m] -> m_type m = MsgAppend -> m_entries m <> [] ->
+     pr' = pause pr /\
+     forall r2 ae2, maybe_send_append r2 to pr' ae2 = Ok (r2, pr', false)).
+Proof.
+  intros H Hs.
+  destruct (maybe_send_append_cases _ _ _ _ _ _ _ H) as [(C & _)|(_ & Hp & C)]; [discriminate|].
+  destruct C as [(_ & s & _ & _ & -> & ->)|[(_ & _ & t & ents & _ & _ & _ & -> & He & Hn)|
+                 (_ & _ & _ & t & ents & msgs' & _ & _ & _ & Hb & ->)]].
+  - split; [right; left; eauto|]. intros m Hm Ht _. cbn in Hm.
+    apply app_inv_head in Hm. inversion Hm; subst. discriminate.
+  - split.
+    + destruct ents as [|e0 et]; [left; apply He; reflexivity|].
+      right; right. specialize (Hn ltac:(discriminate)).
+      rewrite update_state_probe in Hn by exact Hs. congruence.
+    + intros m Hm _ Hne. cbn in Hm. apply app_inv_head in Hm. inversion Hm; subst.
+      change (m_entries (stamped r (app_msg r to pr t ents))) with ents in Hne.
+      specialize (Hn Hne). rewrite update_state_probe in Hn by exact Hs. inversion Hn; subst.
+      split; [reflexivity|]. intros r2 ae2. apply maybe_send_append_probe_paused; [exact Hs|reflexivity].
+  - destruct (try_batching_true _ _ _ _ _ _ _ Hb) as (pre & m0 & post & Hm0 & _ & _ & _ & Hm' & He & Hn).
+    split.
+    + destruct ents as [|e0 et]; [left; apply He; reflexivity|].
+      right; right. destruct (Hn ltac:(discriminate)) as [_ Hu].
+      rewrite update_state_probe in Hu by exact Hs. congruence.
+    + intros m Hm _ _. exfalso. cbn in Hm. rewrite Hm', Hm0 in Hm.
+      apply (f_equal (@length msg)) in Hm. rewrite !app_length in Hm. cbn in Hm. lia.
+Qed.
+
+(* one slot of the window per entry-carrying append while replicating *)
+Theorem replicate_one_slot r to pr ae r' pr' :
+  maybe_send_append r to pr ae = Ok (r', pr', true) -> pr_state pr = Replicate -> PrInv pr ->
+  Inflights.full (ins pr) = false /\
+  (pr' = pr \/ (exists i, pr' = become_snapshot pr i) \/
+   exists last, iabs (ins pr') = iabs (ins pr) ++ [last] /\
+     Inflights.count (ins pr') = S (Inflights.count (ins pr)) /\
+     (Inflights.count (ins pr') <= Inflights.cap (ins pr'))%nat /\
+     Inflights.cap (ins pr') = Inflights.cap (ins pr) /\
+     next_idx pr' = last + 1 /\ pr_state pr' = Replicate /\ matched pr' = matched pr).
+Proof.
+  intros H Hs HI.
+  destruct (maybe_send_append_cases _ _ _ _ _ _ _ H) as [(C & _)|(_ & Hp & _)]; [discriminate|].
+  split; [unfold is_paused in Hp; rewrite Hs in Hp; exact Hp|].
+  destruct (maybe_send_append_pr_step _ _ _ _ _ _ _ H) as [->|[A|(_ & last & Hu)]]; auto.
+  right; right. exists last.
+  destruct (update_state_ok pr last HI Hp) as (pr1 & E & _ & _ & Hr).
+  rewrite E in Hu. inversion Hu; subst. apply Hr; exact Hs.
+Qed.
